@@ -227,6 +227,8 @@ class Reverse:
     name = 'dfa_reverse'
 
     def instance(self, rng):
+        if rng.random() < 0.15:      # 11-13 numbered states: the new initial state must be fresh among q0 .. q12
+            return {'D': gen.numbered_dfa(rng), 'len': rng.choice([2, 3])}
         return {'D': gen.random_dfa(rng, 4, rng.choice([['a', 'b'], ['a']])), 'len': rng.choice([2, 3, 4])}
 
     def own(self, inst, sc):
@@ -369,6 +371,8 @@ class Nfa2Dfa:
             eps, Sig = 'ε', ['a', '_']
         N = gen.random_nfa(rng, 4, Sig, eps, names)
         N['dd'] = True
+        if rng.random() < 0.12:     # 11-12 numbered states, q1 accepting and q10 not (one name a substring of the other)
+            return {'N': gen.numbered_nfa(rng)}
         if len(N['Q']) >= 3 and rng.random() < 0.3:     # an epsilon chain of length two leaving the initial state
             a, b, c = N['Q'][:3]
             N['q0'] = a
@@ -698,7 +702,7 @@ class Chomsky:
 
     def instance(self, rng):
         for _ in range(50):
-            G = gen.random_cfg(rng, nvars=rng.randint(1, 3), maxlen=3)
+            G = gen.random_cfg(rng, nvars=rng.randint(1, 3), maxlen=rng.choice([3, 3, 3, 6]))
             if G['R'][0][0] != G['S'] or not G['Sigma']:
                 continue
             if not all(any(l == v for l, _, _ in G['R']) for v in G['V']):
